@@ -90,6 +90,12 @@ func c15RuleSets() []c15RuleSet {
 			Paths: []string{"/public", "/secret", "/"}, Literals: []string{"/public"}},
 		{Name: "preflight-off", Flags: []string{"--skip-auth-preflight=false", "--skip-auth-route=GET=^/public$"},
 			Paths: []string{"/public", "/secret", "/"}, Literals: []string{"/public"}},
+		{Name: "negated-then-bare", Flags: []string{"--skip-auth-route=!=^/api", "--skip-auth-route=^/api/health$"},
+			Paths: []string{"/api/users", "/api/health", "/api/health/x", "/api", "/apix", "/x", "/"}, Literals: []string{"/api/health", "/x"}},
+		{Name: "bare-then-negated-then-method", Flags: []string{"--skip-auth-route=^/open$", "--skip-auth-route=POST!=^/(open|closed)", "--skip-auth-route=^/closed/door$", "--skip-auth-route=GET=^/g$", "--skip-auth-regex=^/legacy$"},
+			Paths: []string{"/open", "/closed", "/closed/door", "/closed/window", "/g", "/legacy", "/other", "/"}, Literals: []string{"/open", "/closed/door"}},
+		{Name: "extensions", Flags: []string{"--skip-auth-route=GET=\\.(css|js)$", "--skip-auth-route=^/public/"},
+			Paths: []string{"/a.css", "/a.js", "/a.jsx", "/admin/users", "/public/x", "/admin/public/x", "/x/public/", "/"}, Literals: []string{"theme=dark.css", "/public/", "a.js"}},
 		{Name: "no-rules", Flags: []string{},
 			Paths: []string{"/public", "/secret", "/"}, Literals: []string{"/public", ".*"}},
 	}
@@ -158,6 +164,50 @@ func c15Routes(run *vfRun, w *vfWorld) {
 				}
 			}
 		}
+		// hostile X-Forwarded-Uri forms (only reachable through the header: net/http rejects them in a request line):
+		// malformed percent escapes, a leading "//", a fragment — the path is still "everything before the first ? or #"
+		for _, m := range []string{"GET", "POST"} {
+			for _, p := range rs.Paths {
+				for _, l := range rs.Literals {
+					for _, v := range []string{p + "%zz?x=" + l, p + "%?" + l, p + "%g1?y=1&" + l, "/" + p + "?x=" + l, "/" + p, p + "#" + l, p + "#f?x=" + l, p + "?x=1#" + l, "//evil.test" + p, p + "%zz", p + "\\" + l} {
+						jobs = append(jobs, job{"xfu-auth-raw", m, v, ""}, job{"xfu-path-raw", m, v, ""})
+					}
+				}
+			}
+		}
+		// the decision must not depend on the ORDER in which the rules were configured: same requests against
+		// instances built from the reversed and from a rotated rule list
+		type ordered struct {
+			name string
+			p    *vfProxy
+		}
+		var orders []ordered
+		if len(rs.Flags) >= 2 {
+			rev := make([]string, len(rs.Flags))
+			for i, f := range rs.Flags {
+				rev[len(rs.Flags)-1-i] = f
+			}
+			rot := append(append([]string{}, rs.Flags[1:]...), rs.Flags[0])
+			for k, fl := range [][]string{rev, rot} {
+				name := []string{"reversed", "rotated"}[k]
+				// legacy --skip-auth-regex rules are always placed before --skip-auth-route rules by the option loader;
+				// within each kind the order is the configured one
+				op, err := w.NewProxy(fl...)
+				if err != nil {
+					run.T.Fatalf("rule set %s %s: %v", rs.Name, name, err)
+				}
+				orders = append(orders, ordered{name, op})
+			}
+			for _, m := range c15Methods {
+				for _, p := range rs.Paths {
+					for _, q := range []string{"", "?x=1", "?x=" + rs.Literals[0]} {
+						for oi := range orders {
+							jobs = append(jobs, job{fmt.Sprintf("order:%d", oi), m, p, q})
+						}
+					}
+				}
+			}
+		}
 		vfParallel(len(jobs), 16, func(i int) {
 			j := jobs[i]
 			id := fmt.Sprintf("c15-%s-%d", rs.Name, i)
@@ -173,14 +223,31 @@ func c15Routes(run *vfRun, w *vfWorld) {
 			case "xfu-path": // reverse-proxy mode, header names another URI than the request line
 				req = vfNewReq(j.m, "/elsewhere?z=9", "X-Forwarded-Uri", j.p+j.q, "X-Vf-Id", id)
 				resp = rp.Do(req)
+			case "xfu-auth-raw":
+				req = vfNewReq(j.m, "/oauth2/auth", "X-Forwarded-Uri", j.p, "X-Vf-Id", id)
+				resp = rp.Do(req)
+			case "xfu-path-raw":
+				req = vfNewReq(j.m, "/elsewhere?z=9", "X-Forwarded-Uri", j.p, "X-Vf-Id", id)
+				resp = rp.Do(req)
+			default: // order:<n>
+				var oi int
+				fmt.Sscanf(j.ch, "order:%d", &oi)
+				req = vfNewReq(j.m, j.p+j.q, "X-Vf-Id", id)
+				resp = orders[oi].p.Do(req)
 			}
 			if resp.Invalid != "" {
 				return
 			}
-			want := c15Exempt(rules, rs.Preflight, j.m, j.p)
+			refPath := j.p
+			if strings.HasSuffix(j.ch, "-raw") {
+				if k := strings.IndexAny(refPath, "?#"); k >= 0 {
+					refPath = refPath[:k]
+				}
+			}
+			want := c15Exempt(rules, rs.Preflight, j.m, refPath)
 			var got bool
 			switch j.ch {
-			case "xfu-auth":
+			case "xfu-auth", "xfu-auth-raw":
 				got = resp.Code == 202
 			default:
 				got = len(w.Up.FindHit(id)) > 0
@@ -197,7 +264,11 @@ func c15Routes(run *vfRun, w *vfWorld) {
 			}
 			cell := ""
 			if len(rules) > 0 || rs.Preflight {
-				cell = fmt.Sprintf("%s|%s|%s|want=%v|q=%s", rs.Name, j.ch, j.m, want, qc)
+				chc := j.ch
+				if strings.HasPrefix(chc, "order:") {
+					chc = "rule-order-permuted"
+				}
+				cell = fmt.Sprintf("%s|%s|%s|want=%v|q=%s", rs.Name, chc, j.m, want, qc)
 			}
 			run.Eval(cell)
 			run.Count("route_requests", 1)
